@@ -15,6 +15,8 @@ from . import simrules
 def run(ctx):
     repo = ctx.repo
     simrules.measured_qubits_rule(ctx, 'C09.f')
+    simrules.ancilla_initial_state_rule(ctx, 'C09.g')
+    ctx.decided.append('C09.g final_density_matrix: an integer initial state is rescaled when defer_measurements appends ancillas')
     ctx.decided.append('C09.f simulating with a noise model: noise that follows a deferred terminal measurement is recognised per qubit and never reaches the sampled state')
     ctx.decided += [
         'C09.a buffer-commit discipline of _BufferedDensityMatrix and _BufferedStateVector (incl. create() copying an aliased input)',
